@@ -55,6 +55,12 @@ pub struct Script {
     /// message), then after `gap_ms` the rest (what segmentation does to any reply larger than
     /// the path MTU)
     pub tcp_split: Option<(usize, u64)>,
+    /// after the TCP reply: the first `k` octets of a duplicate of it, then the connection is
+    /// closed (a sender that dies in mid-frame, with nobody waiting for that frame)
+    pub tcp_partial_dup_then_close: Option<usize>,
+    /// over UDP a reply larger than this is cut to whole records from the end and sent with TC
+    /// set, as a real server does for the size the forwarder advertises
+    pub udp_truncate_to: Option<usize>,
 }
 
 impl Default for Script {
@@ -70,6 +76,8 @@ impl Default for Script {
             tcp_silent: false,
             tcp_close: false,
             tcp_split: None,
+            tcp_partial_dup_then_close: None,
+            udp_truncate_to: None,
         }
     }
 }
@@ -244,7 +252,37 @@ impl Upstream {
                     continue;
                 }
                 let first_answer = idx == script.drop_mask.trailing_ones();
-                let bytes = build_reply(&script, &q, script.wrong_id_first && first_answer, script.tc_udp);
+                let mut bytes = build_reply(&script, &q, script.wrong_id_first && first_answer, script.tc_udp);
+                if let (Some(limit), Reply::Model(m, c)) = (script.udp_truncate_to, &script.reply) {
+                    if bytes.len() > limit {
+                        let mut m = m.clone();
+                        m.header.id = if script.wrong_id_first && first_answer { q.header.id.wrapping_add(1) } else { q.header.id };
+                        m.header.qr = true;
+                        m.header.tc = true;
+                        m.questions = q.questions.clone();
+                        loop {
+                            let b = dns::encode(&m, *c);
+                            if b.len() <= limit {
+                                bytes = b;
+                                break;
+                            }
+                            // drop about as many records from the end as the excess is worth
+                            let total = m.answer.len() + m.authority.len() + m.additional.len();
+                            if total == 0 {
+                                bytes = b;
+                                break;
+                            }
+                            let avg = (b.len() / total).max(1);
+                            let mut drop = ((b.len() - limit) / avg).max(1);
+                            while drop > 0 {
+                                if m.additional.pop().is_none() && m.authority.pop().is_none() && m.answer.pop().is_none() {
+                                    break;
+                                }
+                                drop -= 1;
+                            }
+                        }
+                    }
+                }
                 let sock = udp.try_clone().unwrap();
                 let copies = 1 + script.dup as usize;
                 let delay = script.delay_ms;
@@ -320,6 +358,7 @@ fn tcp_conn(mut stream: TcpStream, from: SocketAddr, st: Arc<UpState>) {
         let w = writer.clone();
         let delay = script.delay_ms;
         let split = script.tcp_split;
+        let partial = script.tcp_partial_dup_then_close;
         let send = move || {
             let mut out = Vec::with_capacity(bytes.len() + 2);
             out.extend_from_slice(&(bytes.len() as u16).to_be_bytes());
@@ -338,8 +377,16 @@ fn tcp_conn(mut stream: TcpStream, from: SocketAddr, st: Arc<UpState>) {
                     let _ = g.write_all(&out);
                 }
             }
+            if let Some(k) = partial {
+                let _ = g.flush();
+                std::thread::sleep(Duration::from_millis(150));
+                let _ = g.write_all(&out[..k.min(out.len())]);
+                let _ = g.flush();
+                std::thread::sleep(Duration::from_millis(50));
+                let _ = g.shutdown(std::net::Shutdown::Both);
+            }
         };
-        if delay == 0 && split.is_none() {
+        if delay == 0 && split.is_none() && partial.is_none() {
             send();
         } else {
             std::thread::spawn(move || {
